@@ -30,6 +30,9 @@ type C20Scn struct {
 	Entry    string     `json:"entry"` // direct | proto
 	Reloaded bool       `json:"reloaded,omitempty"`
 	Readers  []TaskSpec `json:"readers"`
+	// IndexHome: loaded instances live inside an index.SlimIndex (loads through
+	// si.Unmarshal when the entry says "index", index reads through that object)
+	IndexHome bool `json:"instance_lives_in_slimindex,omitempty"`
 }
 
 func genC20(r *Rng, tier string) *C20Scn {
@@ -102,6 +105,7 @@ func genC20(r *Rng, tier string) *C20Scn {
 		}
 		c.Readers = append(c.Readers, ts)
 	}
+	c.IndexHome = r.Chance(0.25)
 	return c
 }
 
@@ -536,6 +540,10 @@ func executeC20(scn *Scenario) *RunResult {
 			st := fresh(enc)
 			if c.Reloaded {
 				_ = st.Unmarshal(append([]byte{}, priorStreamFor2(enc)...))
+			}
+			if c.IndexHome {
+				st = newIndexHome(st)
+				res.Counters["probe.instance_lives_in_slimindex"]++
 			}
 			return st
 		}
